@@ -286,6 +286,22 @@ impl ExplorationContext {
         self.focus_frame
     }
 
+    /// Return an address for searching debug information that depends on a position inside
+    /// a function (lexical blocks, location lists) for the frame in focus.
+    ///
+    /// For an outer frame the location is a return address - an instruction after the call.
+    /// It may already belong to the next lexical block or location list entry
+    /// (or lie behind the last one) while the frame is still inside the call,
+    /// so an address inside the call instruction is used.
+    #[inline(always)]
+    pub fn lookup_pc(&self) -> GlobalAddress {
+        let pc = self.focus_location.global_pc;
+        if self.focus_frame == 0 {
+            return pc;
+        }
+        GlobalAddress::from(u64::from(pc).saturating_sub(1))
+    }
+
     #[inline(always)]
     pub fn pid_on_focus(&self) -> Pid {
         self.location().pid
